@@ -45,8 +45,8 @@ Inductive dec := DLoop (n : nat) | DIf (taken : bool) | DShort (evaluated : bool
   | DFails (x : bool).    (* directive.Apply / fn.Apply panics (recovered into errorf) *)
 
 Record penv := {
-  pe_ref : list (bstr * list nat * N);       (* reference text, indices of the enclosing loops from the loop that
-                                                binds its root outwards -> marker of that child *)
+  pe_ref : list (bstr * list nat * N);       (* reference text, indices of the loops its `[]` stand for (innermost
+                                                first) -> marker of that child *)
   pe_str : list (bstr * list nat * bstr);    (* string-valued references: node.Var, param.Key, node.Text ... *)
   pe_res : results;                          (* what the child with that marker returns *)
   pe_callee_mode : N;                        (* the autoescape mode of the callee's namespace (state.walk) *)
@@ -87,13 +87,11 @@ Definition runU (m : M unit) (s : rst) : rst :=
   | (o, st') => failed (upd_st s st') (class_of o)
   end.
 
-Fixpoint root_of (r : bstr) : bstr :=
-  match r with [] => [] | c :: t => if c =? 46 then [] else c :: root_of t end.
-Fixpoint ix_from (root : bstr) (ix : list (bstr * nat)) : list nat :=
-  match ix with
-  | [] => []
-  | (v, i) :: t => if bstr_eqb v root then i :: map snd t else ix_from root t
-  end.
+(* a reference names the element of a range by `[]` (node.Cases[].Values[]): it is resolved with as many
+   indices of the enclosing loops, counted from the outermost, as it has `[]` *)
+Fixpoint brackets (r : bstr) : nat :=
+  match r with [] => O | c :: t => if N.eqb c 91 then S (brackets t) else brackets t end.
+Definition ix_from (r : bstr) (ix : list nat) : list nat := skipn (length ix - brackets r) ix.
 Fixpoint nats_eqb (x y : list nat) : bool :=
   match x, y with
   | [], [] => true
@@ -105,11 +103,11 @@ Fixpoint assoc_ri {A} (r : bstr) (ix : list nat) (l : list (bstr * list nat * A)
   | [] => None
   | (r', ix', v) :: t => if bstr_eqb r r' && nats_eqb ix ix' then Some v else assoc_ri r ix t
   end.
-Definition marker (pe : penv) (ix : list (bstr * nat)) (r : bstr) : N :=
-  match assoc_ri r (ix_from (root_of r) ix) (pe_ref pe) with Some m => m | None => 250 end.
-Fixpoint key_str (pe : penv) (ix : list (bstr * nat)) (k : wkey) : bstr :=
+Definition marker (pe : penv) (ix : list nat) (r : bstr) : N :=
+  match assoc_ri r (ix_from r ix) (pe_ref pe) with Some m => m | None => 250 end.
+Fixpoint key_str (pe : penv) (ix : list nat) (k : wkey) : bstr :=
   match k with
-  | EkRef r => match assoc_ri r (ix_from (root_of r) ix) (pe_str pe) with Some s => s | None => [63] end
+  | EkRef r => match assoc_ri r (ix_from r ix) (pe_str pe) with Some s => s | None => [63] end
   | EkLit s => s
   | EkCat a c => key_str pe ix a ++ key_str pe ix c
   | EkOther _ => [63]
@@ -134,23 +132,23 @@ Definition fn_pop := Eval vm_compute in b "s.context.pop".
 Definition fn_set := Eval vm_compute in b "s.context.set".
 Definition fn_lookup := Eval vm_compute in b "s.context.lookup".
 Definition fn_alldata := Eval vm_compute in b "s.context.alldata".
-Definition fn_cdpush := Eval vm_compute in b "callData.push".
-Definition fn_cdset := Eval vm_compute in b "callData.set".
-Definition fn_cdenter := Eval vm_compute in b "callData.enter".
+Definition fn_cdpush := Eval vm_compute in b "?.push".
+Definition fn_cdset := Eval vm_compute in b "?.set".
+Definition fn_cdenter := Eval vm_compute in b "?.enter".
 Definition fn_newscope := Eval vm_compute in b "newScope".
-Definition fn_subwalk := Eval vm_compute in b "state.walk".
+Definition fn_subwalk := Eval vm_compute in b "?.walk".
 Definition fn_write := Eval vm_compute in b "s.wr.Write".
 Definition fn_writestring := Eval vm_compute in b "io.WriteString".
 Definition fn_escwrite := Eval vm_compute in b "htmlEscapeString".
 Definition fn_errorf := Eval vm_compute in b "s.errorf".
 Definition fn_msgbody := Eval vm_compute in b "s.walkMsgBody".
-Definition fn_dapply := Eval vm_compute in b "directive.Apply".
-Definition fn_fapply := Eval vm_compute in b "fn.Apply".
+Definition fn_dapply := Eval vm_compute in b "?.Apply".
+Definition fn_fapply := Eval vm_compute in b "?.Apply".
 Definition lhs_autoescape := Eval vm_compute in b "s.autoescape".
 
 Definition child_node (m : N) : node := NNull m.
 
-Definition do_call (pe : penv) (ix : list (bstr * nat)) (fn : bstr) (args : list wkey) (s : rst) : rst :=
+Definition do_call (pe : penv) (ix : list nat) (fn : bstr) (args : list wkey) (s : rst) : rst :=
   let res := pe_res pe in
   let w := probe_w res in
   if bstr_eqb fn fn_dapply || bstr_eqb fn fn_fapply then
@@ -194,7 +192,7 @@ Definition do_call (pe : penv) (ix : list (bstr * nat)) (fn : bstr) (args : list
   | _ => s
   end.
 
-Fixpoint run (fuel : nat) (pe : penv) (ix : list (bstr * nat)) (evs : list wev) (s : rst) {struct fuel} : rst :=
+Fixpoint run (fuel : nat) (pe : penv) (ix : list nat) (evs : list wev) (s : rst) {struct fuel} : rst :=
   match fuel with
   | O => bad s
   | S f =>
@@ -207,14 +205,14 @@ Fixpoint run (fuel : nat) (pe : penv) (ix : list (bstr * nat)) (evs : list wev) 
               match e with
               | EvCall fn args => do_call pe ix fn args s
               | EvAssign lhs => if bstr_eqb lhs lhs_autoescape then upd_st s (set_mode (r_st s) (pe_mode pe)) else s
-              | EvLoop v _ body =>
+              | EvLoop _ _ body =>
                   match r_dec s with
                   | DLoop n :: d =>
                       (fix iter (k i : nat) (s : rst) {struct k} : rst :=
                          match k with
                          | O => s
                          | S k' =>
-                             let s' := run f pe ((v, i) :: ix) body s in
+                             let s' := run f pe (i :: ix) body s in
                              if (r_status s' =? 0) || (r_status s' =? 2) then iter k' (S i) (upd_status s' 0)
                              else if r_status s' =? 1 then upd_status s' 0
                              else s'
@@ -326,12 +324,12 @@ Proof. probe. Qed.
 
 (* ---- ListNode: push, the children in order (WALKED: s.node stays on the last), pop ---- *)
 Lemma probe_List :
-  probe_ok cf0 (mkpe [R0 "node" 10; R1 "node" 0 11; R1 "node" 1 12; R1 "node" 2 13] [] [])
+  probe_ok cf0 (mkpe [R0 "node" 10; R1 "node.Nodes[]" 0 11; R1 "node.Nodes[]" 1 12; R1 "node.Nodes[]" 2 13] [] [])
     (NList 10 [NNull 11; NNull 12; NNull 13]) ev_ListNode [DLoop 3] st0.
 Proof. probe. Qed.
 (* a failing child: the pop is not reached *)
 Lemma probe_List_fail :
-  probe_ok cf0 (mkpe [R0 "node" 10; R1 "node" 0 11; R1 "node" 1 12; R1 "node" 2 13] [] [(12, Err [1])])
+  probe_ok cf0 (mkpe [R0 "node" 10; R1 "node.Nodes[]" 0 11; R1 "node.Nodes[]" 1 12; R1 "node.Nodes[]" 2 13] [] [(12, Err [1])])
     (NList 10 [NNull 11; NNull 12; NNull 13]) ev_ListNode [DLoop 3] st0.
 Proof. probe. Qed.
 
@@ -351,8 +349,8 @@ Proof. probe. Qed.
 (* ---- IfNode: the conditions in order until one is truthy (or absent); its body walked; nothing after ---- *)
 Definition if3 : node :=
   NIf 10 [NIfCond 20 (Some (NNull 21)) (NNull 22); NIfCond 30 (Some (NNull 31)) (NNull 32); NIfCond 40 None (NNull 42)].
-Definition if3_refs := [R0 "node" 10; R1 "cond.Cond" 0 21; R1 "cond.Body" 0 22; R1 "cond.Cond" 1 31; R1 "cond.Body" 1 32;
-                        R1 "cond.Cond" 2 41; R1 "cond.Body" 2 42].
+Definition if3_refs := [R0 "node" 10; R1 "node.Conds[].Cond" 0 21; R1 "node.Conds[].Body" 0 22; R1 "node.Conds[].Cond" 1 31; R1 "node.Conds[].Body" 1 32;
+                        R1 "node.Conds[].Cond" 2 41; R1 "node.Conds[].Body" 2 42].
 Lemma probe_If_second :
   probe_ok cf0 (mkpe if3_refs [] [(21, Ok (VBool false)); (31, Ok (VBool true))]) if3 ev_IfNode
     [DLoop 3; DShort true; DIf false; DShort true; DIf true] st0.
@@ -374,8 +372,8 @@ Proof. probe. Qed.
 Definition sw : node :=
   NSwitch 10 (NNull 11) [NSwitchCase 20 [NNull 21; NNull 22] (NNull 23); NSwitchCase 30 [NNull 31] (NNull 33);
                           NSwitchCase 40 [] (NNull 43)].
-Definition sw_refs := [R0 "node" 10; R0 "node.Value" 11; R2 "caseValueNode" 0 0 21; R2 "caseValueNode" 1 0 22;
-                       R1 "caseNode.Body" 0 23; R2 "caseValueNode" 0 1 31; R1 "caseNode.Body" 1 33; R1 "caseNode.Body" 2 43].
+Definition sw_refs := [R0 "node" 10; R0 "node.Value" 11; R2 "node.Cases[].Values[]" 0 0 21; R2 "node.Cases[].Values[]" 1 0 22;
+                       R1 "node.Cases[].Body" 0 23; R2 "node.Cases[].Values[]" 0 1 31; R1 "node.Cases[].Body" 1 33; R1 "node.Cases[].Body" 2 43].
 Lemma probe_Switch_second_value :
   probe_ok cf0 (mkpe sw_refs [] [(11, Ok (VInt 2)); (21, Ok (VInt 1)); (22, Ok (VInt 2))]) sw ev_SwitchNode
     [DLoop 3; DLoop 2; DIf false; DIf true] st0.
@@ -419,9 +417,9 @@ Proof. probe. Qed.
 (* ---- CallNode ---- *)
 Definition call_name := Eval vm_compute in b "ns.u".
 Definition call_params_n := [NParamValue 20 bk1 (NNull 21); NParamContent 30 bk2 (NNull 31); NParamValue 40 bk1 (NNull 41)].
-Definition call_refs := [R0 "node" 10; R0 "node.Data" 11; R1 "param.Value" 0 21; R1 "param.Content" 1 31; R1 "param.Value" 2 41;
-                         R0 "calledTmpl.Node" 90].
-Definition call_strs := [S1 "param.Key" 0 bk1; S1 "param.Key" 1 bk2; S1 "param.Key" 2 bk1].
+Definition call_refs := [R0 "node" 10; R0 "node.Data" 11; R1 "node.Params[].Value" 0 21; R1 "node.Params[].Content" 1 31; R1 "node.Params[].Value" 2 41;
+                         R0 "?.Node" 90].
+Definition call_strs := [S1 "node.Params[].Key" 0 bk1; S1 "node.Params[].Key" 1 bk2; S1 "node.Params[].Key" 2 bk1].
 (* no data: a fresh scope; the params in order (value evaluated, content rendered) in the CALLER's scope; s.at(node);
    the callee walked with the new scope entered, its namespace's mode, one level deeper; caller's back *)
 Lemma probe_Call_nodata :
@@ -464,11 +462,11 @@ Proof. probe. Qed.
 (* ---- CssNode, LogNode ---- *)
 Definition bdash := Eval vm_compute in b "p-".
 Lemma probe_Css_expr :
-  probe_ok cf0 (mkpe [R0 "node" 10; R0 "node.Expr" 11] [S0 "prefix" bdash; S0 "node.Suffix" bx] [(11, Ok (VStr [112]))])
+  probe_ok cf0 (mkpe [R0 "node" 10; R0 "node.Expr" 11] [S0 "?" bdash; S0 "node.Suffix" bx] [(11, Ok (VStr [112]))])
     (NCss 10 (Some (NNull 11)) bx) ev_CssNode [DIf true; DIf false] st0.
 Proof. probe. Qed.
 Lemma probe_Css_plain :
-  probe_ok cf0 (mkpe [R0 "node" 10] [S0 "prefix" []; S0 "node.Suffix" bx] []) (NCss 10 None bx) ev_CssNode [DIf false; DIf false] st0.
+  probe_ok cf0 (mkpe [R0 "node" 10] [S0 "?" []; S0 "node.Suffix" bx] []) (NCss 10 None bx) ev_CssNode [DIf false; DIf false] st0.
 Proof. probe. Qed.
 Lemma probe_Log :
   probe_ok cf0 (mkpe [R0 "node" 10; R0 "node.Body" 11] [] []) (NLog 10 (NNull 11)) ev_LogNode [DIf false] st0.
@@ -480,7 +478,7 @@ Definition d_trunc := Eval vm_compute in b "truncate".
 Definition bstr_s := Eval vm_compute in b "a<c".
 (* no directive, mode 1: the argument WALKED (s.node stays inside it), the escaped writes: "a", "&lt;", "c" *)
 Lemma probe_Print_plain :
-  probe_ok cf0 (mkpe [R0 "node" 10; R0 "node.Arg" 11] [S0 "resultStr" bstr_s] [(11, Ok (VStr bstr_s))])
+  probe_ok cf0 (mkpe [R0 "node" 10; R0 "node.Arg" 11] [S0 "?.String()" bstr_s] [(11, Ok (VStr bstr_s))])
     (NPrint 10 (NNull 11) []) ev_PrintNode [DIf false; DLoop 0; DLoop 0; DIf true; DIf false] st0.
 Proof. probe. Qed.
 (* undefined: errorf before anything else *)
@@ -491,14 +489,14 @@ Proof. probe. Qed.
 (* two directives with an argument each (|truncate:5 |truncate:7): arguments evaluated in order, s.node restored to
    where the walk of the argument left it; one escaped write *)
 Lemma probe_Print_directives :
-  probe_ok cf0 (mkpe [R0 "node" 10; R0 "node.Arg" 11; R2 "arg" 0 0 21; R2 "arg" 0 1 31] [S0 "resultStr" bx]
+  probe_ok cf0 (mkpe [R0 "node" 10; R0 "node.Arg" 11; R2 "?[].Args[]" 0 0 21; R2 "?[].Args[]" 0 1 31] [S0 "?.String()" bx]
                   [(11, Ok (VStr bx)); (21, Ok (VInt 5)); (31, Ok (VInt 7))])
     (NPrint 10 (NNull 11) [NDirective 20 d_trunc [NNull 21]; NDirective 30 d_trunc [NNull 31]]) ev_PrintNode
     [DIf false; DLoop 0; DLoop 2; DIf false; DIf false; DLoop 1; DFails false; DIf false; DIf false; DIf false; DLoop 1; DFails false; DIf false; DIf true; DIf false] st0.
 Proof. probe. Qed.
 (* an unknown directive: errorf before its arguments are evaluated *)
 Lemma probe_Print_unknown_directive :
-  probe_ok cf0 (mkpe [R0 "node" 10; R0 "node.Arg" 11; R2 "arg" 0 0 21] [] [(11, Ok (VStr bx))])
+  probe_ok cf0 (mkpe [R0 "node" 10; R0 "node.Arg" 11; R2 "?[].Args[]" 0 0 21] [] [(11, Ok (VStr bx))])
     (NPrint 10 (NNull 11) [NDirective 20 bx [NNull 21]]) ev_PrintNode [DIf false; DLoop 0; DLoop 1; DIf true] st0.
 Proof. probe. Qed.
 
@@ -512,7 +510,7 @@ Proof. probe. Qed.
    The probe: |truncate:"s" (Apply fails) |truncate:<marker 31>; the event list stops at the first Apply, the
    model's trace goes on to evaluate marker 31. *)
 Lemma probe_Print_apply_order_differs :
-  ~ probe_ok cf0 (mkpe [R0 "node" 10; R0 "node.Arg" 11; R2 "arg" 0 0 21; R2 "arg" 0 1 31] [S0 "resultStr" bx]
+  ~ probe_ok cf0 (mkpe [R0 "node" 10; R0 "node.Arg" 11; R2 "?[].Args[]" 0 0 21; R2 "?[].Args[]" 0 1 31] [S0 "?.String()" bx]
                     [(11, Ok (VStr bx)); (21, Ok (VStr bx)); (31, Ok (VInt 7))])
       (NPrint 10 (NNull 11) [NDirective 20 d_trunc [NNull 21]; NDirective 30 d_trunc [NNull 31]]) ev_PrintNode
       [DIf false; DLoop 0; DLoop 2; DIf false; DIf false; DLoop 1; DFails true] st0.
@@ -521,11 +519,11 @@ Proof. unfold probe_ok; vm_compute; discriminate. Qed.
 (* ---- FunctionNode: arity, then the arguments in order, then Apply ---- *)
 Definition n_len := Eval vm_compute in b "length".
 Lemma probe_Function :
-  probe_ok cf0 (mkpe [R0 "node" 10; R1 "arg" 0 11] [] [(11, Ok (VList 50 [VInt 1]))]) (NFunc 10 n_len [NNull 11]) ev_FunctionNode
+  probe_ok cf0 (mkpe [R0 "node" 10; R1 "node.Args[]" 0 11] [] [(11, Ok (VList 50 [VInt 1]))]) (NFunc 10 n_len [NNull 11]) ev_FunctionNode
     [DIf false; DIf true; DIf false; DLoop 1; DFails false; DIf false] st0.
 Proof. probe. Qed.
 Lemma probe_Function_arity :
-  probe_ok cf0 (mkpe [R0 "node" 10; R1 "arg" 0 11; R1 "arg" 1 12] [] []) (NFunc 10 n_len [NNull 11; NNull 12]) ev_FunctionNode
+  probe_ok cf0 (mkpe [R0 "node" 10; R1 "node.Args[]" 0 11; R1 "node.Args[]" 1 12] [] []) (NFunc 10 n_len [NNull 11; NNull 12]) ev_FunctionNode
     [DIf false; DIf true; DIf true] st0.
 Proof. probe. Qed.
 
@@ -533,7 +531,7 @@ Proof. probe. Qed.
 Definition st_map : mstate :=
   init_state (sc_enter (new_scope 7 [(bx, VMap 70 [(bk1, VMap 71 [(bk2, VInt 1)])])])) 1 b_nst None None 100.
 Lemma probe_DataRef :
-  probe_ok cf0 (mkpe [R0 "node" 10; R1 "accessNode.Arg" 0 21] [S0 "node.Key" bx] [(21, Ok (VStr bk1))])
+  probe_ok cf0 (mkpe [R0 "node" 10; R1 "node.Access[].Arg" 0 21] [S0 "node.Key" bx] [(21, Ok (VStr bk1))])
     (NDataRef 10 bx [NAccExpr 20 false (NNull 21); NAccKey 30 false bk2]) ev_DataRefNode
     [DIf false; DIf false; DLoop 2; DCase 2; DCase 1; DCase 2; DIf false; DCase 1; DCase 2; DIf false] st_map.
 Proof. probe. Qed.
@@ -547,22 +545,22 @@ Proof. probe. Qed.
 Definition msg_n : node :=
   NMsg 10 77 [] [] [NRawText 11 bx; NMsgPlaceholder 12 bk1 (NNull 13); NRawText 14 bx].
 Lemma probe_Msg_flat :
-  probe_ok cf0 (mkpe [R0 "node" 10; R1 "n" 0 11; R1 "n.Body" 1 13; R1 "n" 2 14] [] []) msg_n ev_MsgNode
+  probe_ok cf0 (mkpe [R0 "node" 10; R1 "node.Body.Children()[]" 0 11; R1 "node.Body.Children()[].Body" 1 13; R1 "node.Body.Children()[]" 2 14] [] []) msg_n ev_MsgNode
     [DIf true; DLoop 3; DCase 0; DCase 1; DCase 0] st0.
 Proof. probe. Qed.
 (* a plural: the value evaluated, the case with that value (walked as a message body at the message's position) *)
 Definition msg_pl : node :=
   NMsg 10 77 [] [] [NMsgPlural 12 bv (NNull 13) [NMsgPluralCase 20 1 [NRawText 21 bx]; NMsgPluralCase 30 2 [NRawText 31 bx]] [NRawText 41 bx]].
 Lemma probe_Msg_plural_case :
-  probe_ok cf0 (mkpe [R0 "node" 10; R1 "n.Value" 0 13; R2 "pluralCase.Body" 1 0 10] [] [(13, Ok (VInt 2))]) msg_pl ev_MsgNode
+  probe_ok cf0 (mkpe [R0 "node" 10; R1 "node.Body.Children()[].Value" 0 13; R2 "node.Body.Children()[].Cases[].Body" 1 0 10] [] [(13, Ok (VInt 2))]) msg_pl ev_MsgNode
     [DIf true; DLoop 1; DCase 2; DIf false; DLoop 2; DIf false; DIf true] st0.
 Proof. probe. Qed.
 Lemma probe_Msg_plural_default :
-  probe_ok cf0 (mkpe [R0 "node" 10; R1 "n.Value" 0 13; R1 "n.Default" 0 10] [] [(13, Ok (VInt 5))]) msg_pl ev_MsgNode
+  probe_ok cf0 (mkpe [R0 "node" 10; R1 "node.Body.Children()[].Value" 0 13; R1 "node.Body.Children()[].Default" 0 10] [] [(13, Ok (VInt 5))]) msg_pl ev_MsgNode
     [DIf true; DLoop 1; DCase 2; DIf false; DLoop 2; DIf false; DIf false] st0.
 Proof. probe. Qed.
 Lemma probe_Msg_plural_not_int :
-  probe_ok cf0 (mkpe [R0 "node" 10; R1 "n.Value" 0 13] [] [(13, Ok (VStr bx))]) msg_pl ev_MsgNode
+  probe_ok cf0 (mkpe [R0 "node" 10; R1 "node.Body.Children()[].Value" 0 13] [] [(13, Ok (VStr bx))]) msg_pl ev_MsgNode
     [DIf true; DLoop 1; DCase 2; DIf true] st0.
 Proof. probe. Qed.
 
@@ -589,11 +587,11 @@ Proof. probe. Qed.
 Lemma probe_Tern_else : probe_ok cf0 (mkpe two_refs [] [(11, Ok (VBool false))]) (NTern 10 (NNull 11) (NNull 12) (NNull 13)) ev_TernNode [DIf false] st0.
 Proof. probe. Qed.
 Lemma probe_ListLit :
-  probe_ok cf0 (mkpe [R0 "node" 10; R1 "item" 0 11; R1 "item" 1 12] [] []) (NListLit 10 [NNull 11; NNull 12]) ev_ListLiteralNode [DLoop 2] st0.
+  probe_ok cf0 (mkpe [R0 "node" 10; R1 "node.Items[]" 0 11; R1 "node.Items[]" 1 12] [] []) (NListLit 10 [NNull 11; NNull 12]) ev_ListLiteralNode [DLoop 2] st0.
 Proof. probe. Qed.
 
 Lemma probe_MapLit :
-  probe_ok cf0 (mkpe [R0 "node" 10; R1 "v" 0 11; R1 "v" 1 12] [] []) (NMapLit 10 [(bk1, NNull 11); (bk2, NNull 12)]) ev_MapLiteralNode [DLoop 2] st0.
+  probe_ok cf0 (mkpe [R0 "node" 10; R1 "node.Items[]" 0 11; R1 "node.Items[]" 1 12] [] []) (NMapLit 10 [(bk1, NNull 11); (bk2, NNull 12)]) ev_MapLiteralNode [DLoop 2] st0.
 Proof. probe. Qed.
 Definition one_refs := [R0 "node" 10; R0 "node.Arg" 11].
 Lemma probe_Negate : probe_ok cf0 (mkpe one_refs [] [(11, Ok (VInt 1))]) (NNeg 10 (NNull 11)) ev_NegateNode [DCase 0] st0.
@@ -629,9 +627,9 @@ Proof. probe. Qed.
 Local Ltac refuted := unfold probe_ok; vm_compute; discriminate.
 
 Definition ev_ListNode_no_pop := Eval vm_compute in
-  [C "s.context.push" []; LOOP "node" "node.Nodes" [C "s.walk" [R "node"]]].
+  [C "s.context.push" []; LOOP "node.Nodes" [C "s.walk" [R "node.Nodes[]"]]].
 Lemma probe_detects_dropped_pop :
-  ~ probe_ok cf0 (mkpe [R0 "node" 10; R1 "node" 0 11; R1 "node" 1 12; R1 "node" 2 13] [] [])
+  ~ probe_ok cf0 (mkpe [R0 "node" 10; R1 "node.Nodes[]" 0 11; R1 "node.Nodes[]" 1 12; R1 "node.Nodes[]" 2 13] [] [])
       (NList 10 [NNull 11; NNull 12; NNull 13]) ev_ListNode_no_pop [DLoop 3] st0.
 Proof. refuted. Qed.
 
